@@ -1,6 +1,6 @@
 (* read_topology on every text that carries a topology (C15_parse_render). *)
 From Coq Require Import List Ascii Bool Arith Lia ZArith Sorted.
-From GM Require Import Base.Res Base.StrItp Model.Itp Model.Topology Proofs.ItpSpec Proofs.ItpCore.
+From GM Require Import Base.Res Base.StrItp Model.Itp Model.Topology Proofs.ItpSpec Proofs.ItpCore Proofs.ItpText Proofs.ItpLine.
 Import ListNotations.
 
 (* ---------------------------------------------------------------- atom number -> position *)
@@ -154,4 +154,241 @@ Proof.
   rewrite existsb_exists. split.
   - intros [k [H E]]. apply str_eqb_eq in E. subst. exact H.
   - intros H. exists n. split; [exact H | apply str_eqb_refl].
+Qed.
+
+(* ---------------------------------------------------------------- links to the line-level lemmas *)
+Lemma nonempty_content p : nonempty (content p) = nonnil (split_ws (content p)).
+Proof.
+  unfold content. destruct (strip (p_content p)) as [|c r] eqn:E.
+  - reflexivity.
+  - change (nonempty (c :: r)) with true. destruct (split_ws (c :: r)) eqn:S; [|reflexivity].
+    exfalso. apply (ItpLine.split_ws_cons_nonspace c r); [|exact S].
+    apply (ItpLine.strip_head_nonspace _ _ _ E).
+Qed.
+
+Definition not_hdr_not_re_header := ItpLine.is_hdr_false_re_header.
+
+(* ---------------------------------------------------------------- from parsed lines to fields *)
+Lemma sec_items_fields : forall k ls ps,
+  Forall2 (fun l p => parse_line k l = Ok p) ls ps ->
+  Forall2 (fun ts p => fields_of k ts = Ok (p_fields p))
+          (filter nonnil (map (fun l => fst (spec_entry l)) ls)) (sec_items ps).
+Proof.
+  intros k ls ps H. induction H as [|l p ls ps Hp _ IH]; simpl; [constructor|].
+  destruct (parse_line_entry _ _ _ Hp) as (He & Hf & _).
+  assert (Ht : split_ws (content p) = fst (spec_entry l)) by (rewrite <- He; reflexivity).
+  unfold sec_items in *. simpl. rewrite nonempty_content. rewrite Ht.
+  destruct (nonnil (fst (spec_entry l))); [constructor; assumption | exact IH].
+Qed.
+
+Lemma mapM_Forall2 {A B} (f : A -> res B) (R : A -> B -> Prop) l :
+  Forall (fun a => exists b, f a = Ok b /\ R a b) l -> exists l', mapM f l = Ok l' /\ Forall2 R l l'.
+Proof.
+  induction l as [|a r IH]; intros H; simpl.
+  - exists []. split; [reflexivity | constructor].
+  - inversion H as [|? ? [b [Hb Rb]] Hr]; subst. destruct (IH Hr) as [r' [E F]].
+    rewrite Hb. simpl. rewrite E. simpl. exists (b :: r'). split; [reflexivity | constructor; assumption].
+Qed.
+
+Lemma Forall2_compose {A B C} (R : A -> B -> Prop) (S : B -> C -> Prop) l1 l2 l3 :
+  Forall2 R l1 l2 -> Forall2 S l2 l3 -> Forall2 (fun a c => exists b, R a b /\ S b c) l1 l3.
+Proof.
+  intros H; revert l3; induction H; intros l3 H3; inversion H3; subst; constructor; eauto.
+Qed.
+
+Lemma Forall2_Forall_r {A B} (R : A -> B -> Prop) (P : B -> Prop) l1 l2 :
+  Forall2 R l1 l2 -> (forall a b, R a b -> P b) -> Forall P l2.
+Proof. intros H HP. induction H; constructor; eauto. Qed.
+
+Lemma Forall2_In_r {A B} (R : A -> B -> Prop) l1 l2 b : Forall2 R l1 l2 -> In b l2 -> exists a, In a l1 /\ R a b.
+Proof.
+  intros H. induction H as [|x y l1 l2 Hxy _ IH]; simpl; intros Hb; [contradiction|].
+  destruct Hb as [Hb|Hb]; [subst; eauto | destruct (IH Hb) as [a [Ha Ra]]; eauto].
+Qed.
+
+Lemma kind_atoms : kind_of s_atoms = KAtom. Proof. reflexivity. Qed.
+Lemma kind_bonds : kind_of s_bonds = KBond. Proof. reflexivity. Qed.
+Lemma kind_constraints : kind_of s_constraints = KBond. Proof. reflexivity. Qed.
+Lemma kind_pairs : kind_of s_pairs = KBond. Proof. reflexivity. Qed.
+Lemma kind_mol : kind_of s_moleculetype = KMol. Proof. reflexivity. Qed.
+
+Lemma fields_of_nonnil k ts : nonnil ts = true ->
+  fields_of k ts = match k with
+                   | KPlain => Ok FNone
+                   | KAtom => let* a := atom_fields ts in Ok (FAtom a)
+                   | KBond => bond_fields ts
+                   | KMol => mol_fields ts
+                   end.
+Proof. destruct ts; [discriminate | reflexivity]. Qed.
+
+Lemma content_toks_nonnil n ls ts : In ts (content_toks n ls) -> nonnil ts = true.
+Proof. unfold content_toks. intros H. apply filter_In in H. tauto. Qed.
+
+Lemma content_toks_In n ls l : In l (lines_in n ls) -> nonnil (fst (spec_entry l)) = true ->
+  In (fst (spec_entry l)) (content_toks n ls).
+Proof.
+  intros H1 H2. unfold content_toks. apply filter_In. split; [|exact H2].
+  apply in_map_iff. exists l. tauto.
+Qed.
+
+(* every line of a text that carries a topology is accepted by its section's line parser *)
+Lemma denotes_fields_ok ls t n l : file_denotes ls t -> In l (lines_in n ls) ->
+  exists f, fields_of (kind_of n) (fst (spec_entry l)) = Ok f.
+Proof.
+  intros (Hdom & Hkinds & _ & _ & (m0 & rest & Hm & Hm0 & Hrest) & Hat & Hco & Hbo & Hpa) Hl.
+  destruct (nonnil (fst (spec_entry l))) eqn:Hn.
+  2:{ destruct (fst (spec_entry l)); [simpl; eauto | discriminate]. }
+  pose proof (content_toks_In _ _ _ Hl Hn) as Hin.
+  rewrite (fields_of_nonnil _ _ Hn).
+  destruct (Hkinds n (lines_in_name _ _ _ Hl)) as [E|[E|[E|[E|[E|E]]]]]; try subst n.
+  - rewrite kind_mol. rewrite Hm in Hin. destruct Hin as [Hin|Hin].
+    + subst m0. destruct (mol_fields_ok _ _ Hm0) as [k Hk]. eauto.
+    + rewrite Forall_forall in Hrest. destruct (Hrest _ Hin) as [nm Hnm].
+      destruct (mol_fields_ok _ _ Hnm) as [k Hk]. eauto.
+  - rewrite kind_atoms. destruct (Forall2_In_r _ _ _ _ Hat Hin) as [a [_ Ha]].
+    destruct (atom_fields_ok _ _ Ha) as [af [Haf _]]. rewrite Haf. simpl. eauto.
+  - rewrite kind_bonds. destruct (Forall2_In_r _ _ _ _ Hbo Hin) as [b [_ Hb]].
+    destruct (bond_fields_ok _ _ Hb) as [f Hf]. eauto.
+  - rewrite kind_constraints. destruct (Forall2_In_r _ _ _ _ Hco Hin) as [b [_ Hb]].
+    destruct (bond_fields_ok _ _ Hb) as [f Hf]. eauto.
+  - rewrite kind_pairs. destruct (Forall2_In_r _ _ _ _ Hpa Hin) as [b [_ Hb]].
+    destruct (bond_fields_ok _ _ Hb) as [f Hf]. eauto.
+  - rewrite E. eauto.
+Qed.
+
+(* the bond pairs of one key *)
+Lemma sec_bonds_ok f ls key spec :
+  f_secs f = map (fun n => (n, sec_lines n (f_secs f))) (sec_names ls) ->
+  (forall n, Forall2 (fun l p => parse_line (kind_of n) l = Ok p) (lines_in n ls) (sec_lines n (f_secs f))) ->
+  kind_of key = KBond ->
+  Forall2 bond_line_ok spec (content_toks key ls) ->
+  sec_bonds f key = Ok spec.
+Proof.
+  intros Hsecs Hall Hk Hspec. unfold sec_bonds.
+  assert (Hitems : mapM bond_of (sec_items (sec_lines key (f_secs f))) = Ok spec).
+  { pose proof (sec_items_fields _ _ _ (Hall key)) as H. fold (content_toks key ls) in H. rewrite Hk in H.
+    revert H. generalize (sec_items (sec_lines key (f_secs f))). revert Hspec.
+    generalize (content_toks_nonnil key ls). generalize (content_toks key ls).
+    intros toks Hnn Hspec. induction Hspec as [|b ts spec toks Hb _ IH]; intros items H; inversion H; subst; [reflexivity|].
+    simpl. destruct (bond_fields_ok _ _ Hb) as [fu Hfu].
+    match goal with Hf : fields_of KBond ts = Ok _ |- _ =>
+      rewrite (fields_of_nonnil KBond ts (Hnn ts (or_introl eq_refl))) in Hf; rewrite Hfu in Hf; inversion Hf as [Hpf] end.
+    unfold bond_of at 1. rewrite <- Hpf. simpl.
+    rewrite IH; [destruct b; reflexivity | intros x Hx; apply Hnn; right; exact Hx | assumption]. }
+  destruct (get_sec key (f_secs f)) as [ps|] eqn:Hg.
+  - unfold sec_lines in Hitems. rewrite Hg in Hitems. exact Hitems.
+  - unfold sec_lines in Hitems. rewrite Hg in Hitems. simpl in Hitems. exact Hitems.
+Qed.
+
+Theorem read_topology_denotes : forall ls t,
+  Forall line_ok ls -> file_denotes ls t ->
+  ts_atoms t <> [] -> NoDup (map as_nr (ts_atoms t)) ->
+  (forall b, In b (ts_cons t ++ ts_bonds t ++ ts_pairs t) ->
+     In (fst b) (map as_nr (ts_atoms t)) /\ In (snd b) (map as_nr (ts_atoms t))) ->
+  exists f bonds, itp_parse ls = Ok f /\
+    parser_of_file f = Ok (ts_name t, map info_of (ts_atoms t), bonds) /\
+    Forall2 (bond_at (map as_nr (ts_atoms t))) (ts_cons t ++ ts_bonds t ++ ts_pairs t) bonds.
+Proof.
+  intros ls t Hok Hden Hne Hnd Hends.
+  pose proof Hden as (Hdom & Hkinds & Hmolin & Hatin & (m0 & rest & Hm & Hm0 & Hrest) & Hat & Hco & Hbo & Hpa).
+  (* the text parses *)
+  destruct (itp_parse_total ls Hdom) as [f Hf].
+  { intros l Hl Hh. rewrite Forall_forall in Hok. apply hdr_name_total; auto. }
+  { intros n l Hnl. destruct (tag_lines_In _ _ _ _ Hnl) as [Hl Hh].
+    apply lines_in_In in Hnl. destruct (denotes_fields_ok _ _ _ _ Hden Hnl) as [fl Hfl].
+    rewrite Forall_forall in Hok. apply (parse_line_complete _ _ fl); [|exact Hfl].
+    apply not_hdr_not_re_header; auto. }
+  destruct (itp_parse_spec _ _ Hf Hdom) as (Hhead & Hnames & Hsecs & Hall).
+  exists f.
+  (* dictionary facts *)
+  assert (Hkm : has_key s_moleculetype (f_secs f) = true) by (apply has_key_In; rewrite Hnames; exact Hmolin).
+  assert (Hka : has_key s_atoms (f_secs f) = true) by (apply has_key_In; rewrite Hnames; exact Hatin).
+  assert (Hget : forall n, In n (sec_names ls) -> get_sec n (f_secs f) = Some (sec_lines n (f_secs f))).
+  { intros n Hn. rewrite Hsecs at 1. rewrite get_sec_map.
+    destruct (existsb (fun k => str_eqb k n) (sec_names ls)) eqn:E; [reflexivity|].
+    apply existsb_name in Hn. congruence. }
+  (* name *)
+  assert (Hname : top_name f = Ok (ts_name t)).
+  { unfold top_name. rewrite (Hget _ Hmolin).
+    pose proof (sec_items_fields _ _ _ (Hall s_moleculetype)) as H. fold (content_toks s_moleculetype ls) in H.
+    rewrite Hm in H. inversion H as [|? p0 ? ? Hp0 _]; subst.
+    rewrite kind_mol in Hp0. simpl in Hp0. destruct (mol_fields_ok _ _ Hm0) as [k Hk].
+    destruct m0 as [|x m0]; [destruct Hm0 as (? & ? & ? & E & _); discriminate|].
+    simpl in Hp0. rewrite Hk in Hp0. inversion Hp0 as [Hpf]. reflexivity. }
+  (* atoms *)
+  assert (Hatoms : exists afs, mapM atom_of (sec_items (sec_lines s_atoms (f_secs f))) = Ok afs /\
+             Forall2 (fun a af => a_nr af = as_nr a /\ a_name af = as_name a /\ a_resname af = as_resname a /\
+                                  a_resid af = as_resid a) (ts_atoms t) afs).
+  { pose proof (sec_items_fields _ _ _ (Hall s_atoms)) as H. fold (content_toks s_atoms ls) in H. rewrite kind_atoms in H.
+    revert H. generalize (sec_items (sec_lines s_atoms (f_secs f))). revert Hat.
+    generalize (content_toks_nonnil s_atoms ls). generalize (content_toks s_atoms ls). generalize (ts_atoms t).
+    intros specs toks Hnn Hat. induction Hat as [|a ts specs toks Ha _ IH]; intros items H; inversion H; subst.
+    - exists []. split; [reflexivity | constructor].
+    - destruct (atom_fields_ok _ _ Ha) as [af [Haf Hafs]].
+      match goal with Hfo : fields_of KAtom ts = Ok _ |- _ =>
+        rewrite (fields_of_nonnil KAtom ts (Hnn ts (or_introl eq_refl))) in Hfo; rewrite Haf in Hfo; simpl in Hfo;
+        inversion Hfo as [Hpf] end.
+      match goal with Hr : Forall2 _ toks ?its |- _ =>
+        destruct (IH (fun x Hx => Hnn x (or_intror Hx)) its Hr) as [afs [E F]] end.
+      exists (af :: afs). split; [|constructor; assumption].
+      simpl. unfold atom_of at 1. rewrite <- Hpf. simpl. rewrite E. reflexivity. }
+  destruct Hatoms as [afs [Hafs Hrel]].
+  assert (Hinfos : map (fun a => (a_name a, a_resname a, a_resid a)) afs = map info_of (ts_atoms t)).
+  { clear - Hrel. induction Hrel as [|a af l l' (H1 & H2 & H3 & H4) _ IH]; simpl; [reflexivity|].
+    rewrite IH. unfold info_of. rewrite H2, H3, H4. reflexivity. }
+  assert (Hnrs : map a_nr afs = map as_nr (ts_atoms t)).
+  { clear - Hrel. induction Hrel as [|a af l l' (H1 & H2 & H3 & H4) _ IH]; simpl; [reflexivity|].
+    rewrite IH, H1. reflexivity. }
+  (* bonds *)
+  assert (Hraw : top_bonds_raw f = Ok (ts_cons t ++ ts_bonds t ++ ts_pairs t)).
+  { unfold top_bonds_raw.
+    rewrite (sec_bonds_ok f ls s_constraints (ts_cons t) Hsecs Hall kind_constraints Hco). simpl.
+    rewrite (sec_bonds_ok f ls s_bonds (ts_bonds t) Hsecs Hall kind_bonds Hbo). simpl.
+    rewrite (sec_bonds_ok f ls s_pairs (ts_pairs t) Hsecs Hall kind_pairs Hpa). reflexivity. }
+  set (nrs := map as_nr (ts_atoms t)) in *.
+  set (nums := combine (map a_nr afs) (seq 0 (List.length afs))).
+  assert (Htr : exists bonds, mapM (translate nums) (ts_cons t ++ ts_bonds t ++ ts_pairs t) = Ok bonds /\
+                              Forall2 (bond_at nrs) (ts_cons t ++ ts_bonds t ++ ts_pairs t) bonds).
+  { apply mapM_Forall2. apply Forall_forall. intros b Hb. destruct (Hends b Hb) as [H1 H2].
+    apply In_nth_error in H1 as [i Hi]. apply In_nth_error in H2 as [j Hj].
+    exists (i, j). split; [|split; assumption].
+    unfold translate, nums. rewrite Hnrs. replace (List.length afs) with (List.length nrs).
+    2:{ rewrite <- Hnrs. rewrite map_length. reflexivity. }
+    rewrite (lookup_last_pos nrs 0 i (fst b) Hnd Hi), (lookup_last_pos nrs 0 j (snd b) Hnd Hj). reflexivity. }
+  destruct Htr as [bonds [Hb1 Hb2]]. exists bonds. split; [exact Hf|]. split; [|exact Hb2].
+  unfold parser_of_file. rewrite Hkm, Hka. simpl. rewrite Hname. simpl.
+  unfold top_atoms. rewrite (Hget _ Hatin). rewrite Hafs. simpl.
+  rewrite Hinfos. destruct (map info_of (ts_atoms t)) eqn:Emap.
+  { destruct (ts_atoms t); [contradiction | discriminate]. }
+  rewrite Hraw. simpl. fold nums. rewrite Hb1. simpl. reflexivity.
+Qed.
+
+(* the statement on the file text *)
+Theorem read_topology_render : forall text t,
+  file_denotes (lines text) t ->
+  ts_atoms t <> [] -> NoDup (map as_nr (ts_atoms t)) ->
+  (forall b, In b (ts_cons t ++ ts_bonds t ++ ts_pairs t) ->
+     In (fst b) (map as_nr (ts_atoms t)) /\ In (snd b) (map as_nr (ts_atoms t))) ->
+  exists bonds,
+    read_topology text = Ok (ts_name t, map info_of (ts_atoms t), bonds) /\
+    Forall2 (bond_at (map as_nr (ts_atoms t))) (ts_cons t ++ ts_bonds t ++ ts_pairs t) bonds /\
+    (forall b, In b bonds -> fst b < List.length (ts_atoms t) /\ snd b < List.length (ts_atoms t)).
+Proof.
+  intros text t Hden Hne Hnd Hends.
+  destruct (read_topology_denotes (lines text) t (lines_ok text) Hden Hne Hnd Hends) as (f & bonds & Hf & Hp & Hb).
+  exists bonds. split; [|split; [exact Hb|]].
+  - unfold read_topology, itp_read. rewrite Hf. simpl. exact Hp.
+  - intros b Hin. destruct (Forall2_In_r _ _ _ _ Hb Hin) as [z [_ [H1 H2]]].
+    assert (L : List.length (map as_nr (ts_atoms t)) = List.length (ts_atoms t)) by apply map_length.
+    rewrite <- L. split; apply nth_error_Some; congruence.
+Qed.
+
+(* ---------------------------------------------------------------- a concrete decorated text *)
+Definition no_header_secb (ls : list str) : bool :=
+  forallb (fun l => negb (is_hdr l) || match hdr_name l with Ok n => negb (str_eqb n s_header) | Err _ => true end) ls.
+
+Lemma no_header_secb_ok ls : no_header_secb ls = true -> no_header_sec ls.
+Proof.
+  unfold no_header_secb, no_header_sec. rewrite forallb_forall. intros H l Hl Hh E.
+  specialize (H l Hl). rewrite Hh, E in H. rewrite str_eqb_refl in H. discriminate.
 Qed.
